@@ -118,7 +118,10 @@ func init() {
 			parsers := []struct {
 				name string
 				p    url.Parser
-			}{{"default parser", url.NewParser()}, {"GoogleSafeBrowsing", canonicalizer.GoogleSafeBrowsing}, {"Semantic", canonicalizer.Semantic}}
+			}{{"default parser", url.NewParser()}, {"GoogleSafeBrowsing", canonicalizer.GoogleSafeBrowsing}, {"Semantic", canonicalizer.Semantic},
+				{"reporting parser", url.NewParser(url.WithReportValidationErrors())},
+				{"relaxed parser", url.NewParser(url.WithLaxHostParsing(), url.WithCollapseConsecutiveSlashes(), url.WithAcceptInvalidCodepoints(), url.WithPercentEncodeSinglePercentSign(), url.WithSkipWindowsDriveLetterNormalization())},
+				{"sorting profile with repeated decoding", canonicalizer.New(canonicalizer.WithSortQuery(canonicalizer.SortKeys), canonicalizer.WithRepeatedPercentDecoding(), canonicalizer.WithRemoveUserInfo(), canonicalizer.WithDefaultScheme("http"))}}
 			// per input byte, from the smallest to the largest size (a factor 16 in quick, 64 in thorough): quadratic growth
 			// multiplies it by 16 (64); a logarithmic factor, allocator size classes, and the buffers that library code keeps in
 			// pools between calls (regexp, fmt) stay well below 6. Consecutive sizes are not compared one by one: pooled
